@@ -46,6 +46,7 @@ func sameKeys(got [][]byte, want []any) bool {
 // C14 roster: batches of symbolic keys (sizes = params) for vectors 0 and 1, commit, second round, empty commit.
 func VerifC14Roster() {
 	n1, n2, n3 := vParam(0), vParam(1), vParam(2)
+	vCommittee(vParam(3)) // committee size: adds and commits need the Alphabet's 2n/3+1 account
 	deployContainerOnly()
 	a, b, c := batch("a", n1), batch("b", n2), batch("c", n3)
 	r0, r1, r2 := vInt("r0"), vInt("r1"), vInt("r2")
